@@ -96,6 +96,11 @@ func (rww *responseWriterWrapper) WriteHeader(status int) {
 	if rww.wroteHeader {
 		return
 	}
+	if httpserver.IsInformational(status) {
+		// not the response header yet: the real status is still to come
+		rww.ResponseWriterWrapper.WriteHeader(status)
+		return
+	}
 	rww.wroteHeader = true
 	// capture the original headers
 	h := rww.Header()
